@@ -20,6 +20,16 @@ CLAIMS = {
         note="The regexp engine is a parameter with the contract 'match length within the rest'; utf8.DecodeRune is re-implemented "
              "and compared with the real function on every sampled input.",
         technique="Lean 4 theorems (specification equality per primitive, bounds, in-bounds) + differential correspondence + regenerated facts"),
+    "C11": dict(
+        text="Machine-checked proof (Lean 4) for every file set built by AddFile from NewFileSet (any number of files, empty files, any "
+             "bytes): Position(global position) of every offset 0..len of every file is that file's name and the line/column an "
+             "independent newline-counting specification gives on the CRLF-normalised content (c11_roundtrip), distinct (file, offset) "
+             "pairs get distinct positions (c11_inj), files never overlap (c11_disjoint), exactly position 0 and positions >= the next "
+             "free position are unknown (c11_unknown, an iff), the lookup never indexes out of range (c11_nopanic), CRLF normalisation "
+             "characterised (c11_crlf); the binary searches are Go's sort.Search loop. Tied to parsley/file_set.go and text/file.go by a "
+             "differential run over random file sets x every global position and by regenerated constants/expressions.",
+        note="sort.Search and bytes.Replace are re-implemented from their documentation; the lazily built line table is modelled as computed eagerly.",
+        technique="Lean 4 theorems (induction over AddFile, binary-search lemma, line table) + differential correspondence + regenerated facts"),
     "C15": dict(
         text="Machine-checked proof (Lean 4) that the slice-heap/map-heap model of IntSet/IntMap refines the plain set/map "
              "specification for every history and every append growth policy (c15_refine, c15_sorted, c15_grow_irrelevant), tied to "
